@@ -297,7 +297,7 @@ pub fn run(ctx: &mut LaneCtx) {
     ctx.run_sub(
         SubSpec {
             name: "live-sanitized",
-            cases: (480, 10_000),
+            cases: (720, 10_000),
             rule: "sanitized dumps of live targets: 1..43 parked threads (with or without a size limit that shortens the stacks of threads at position >= 20) on pattern-filled custom stacks with planted words (pointers into executable / non-executable mappings, one past a mapping's end, own-stack pointers, small integers around +-4096, random), sp at any offset incl. misaligned; oracle = reference classifier over the target's memory (read back through /proc/pid/mem) with /proc/pid/maps as the mapping list; non-trivial = kept-small, kept-pointer and defaced words all occur; distinct = hash of case",
             strategy: crate::props::planted::case_strategy(Some(true), Some(false), None).boxed(),
             max_shrink_iters: 150,
